@@ -2,3 +2,4 @@
 import FsVerif.Model.Basic
 import FsVerif.Model.PosStore
 import FsVerif.Model.BufStore
+import FsVerif.Model.PrioReq
